@@ -94,7 +94,7 @@ def run_d(crate, harness_specs, tier, seed, result):
             hid = hs.get("id", hs["name"])
             out = binary + f".{hid}.json"
             cmd = [binary, hs["name"], "--threads", str(t.get("threads", NCPU)), "--max-paths", str(t.get("max_paths", 100000)),
-                   "--seed", str(seed), "--split-depth", str(t.get("split_depth", 3)), "--out", out,
+                   "--seed", str(seed), "--split-depth", str(t.get("split_depth", 6)), "--out", out,
                    "--crosscheck-every", str(t.get("crosscheck_every", 211))]
             env = dict(os.environ)
             for k, v in t.get("env", {}).items():
